@@ -73,6 +73,9 @@ func gen(r *sim.Rng, tier string) *sim.Case {
 				prog = append(prog, sim.Op{Op: "Len"})
 			case 3:
 				d := []int{0, 5, 10, 25, 60, -1}[r.N(6)]
+				if r.Pct(25) {
+					d = r.Range(1, 80)
+				}
 				prog = append(prog, sim.Op{Op: "PopWait", D: d})
 			}
 		}
